@@ -1844,6 +1844,10 @@ func (r *Redis) TTLCtx(ctx context.Context, key string) (val int, err error) {
 		}
 
 		val = int(duration / time.Second)
+		if duration < 0 {
+			// -2：key 不存在；-1：key 存在但未设置过期时间
+			val = int(duration)
+		}
 		return nil
 	}, acceptable)
 
